@@ -486,6 +486,7 @@ def handle (ws : List String) : String :=
   | "asg" :: rest => handleAsg rest
   | "convof" :: rest => handleConvOf rest
   | "dflt" :: rest => handleDflt rest
+  | "dsn" :: rest => handleDsn rest
   | ["hcstr", s] => match parseCps s with
     | some s => if hcString s then "1" else "0" | none => "bad"
   | "hist" :: n :: ops =>
